@@ -21,6 +21,9 @@ EDIT = ["modify", "modify_if", "unselect", "fill_missing_keys", "left_join", "in
 FRESH = ["rename", "select"]
 
 
+RIGHT_OBSOLETE = [False]      # set by a join step that built its own right-hand list (renamed key pair)
+
+
 PROBES = ["sort", "sort_desc", "unique", "filter_kv", "filter_out_kv", "drop_na", "semi_join", "anti_join", "pluck", "group_aggregate", "group_aggregate_a", "group_aggregate_a", "to_string"]
 
 
@@ -144,6 +147,10 @@ def call(lod, st, other):
     if m == "add":
         return lod + di.ListOfDicts([{"a": 5, "meta": {"n": 0}}])
     if m == "modify":
+        if arg == 3:
+            # an edit whose new values compare EQUAL to the old ones (int -> float of the same number, a new key holding
+            # None): the dicts are written all the same
+            return lod.modify(a=lambda x: float(x["a"]) if isinstance(x.get("a"), int) else x.get("a"), znone=lambda x: None)
         return lod.modify(z=lambda x: arg)
     if m == "modify_if":
         return lod.modify_if(lambda x: (x.get("a") or 0) % 2 == arg % 2, z=lambda x: arg + 10)
@@ -151,10 +158,14 @@ def call(lod, st, other):
         return lod.unselect("z", "w")
     if m == "fill_missing_keys":
         return lod.fill_missing_keys(w=arg)
-    if m == "left_join":
-        return lod.left_join(other, "a")
-    if m == "inner_join":
-        return lod.inner_join(other, "a")
+    if m in ("left_join", "inner_join"):
+        if arg % 2 == 1:
+            # by a (left, right) pair of DIFFERENT names: the right list's key is called "k"
+            other2 = di.ListOfDicts([{("k" if kk == "a" else kk): v for kk, v in d.items()} for d in other]).filter(lambda x: True)
+            out = getattr(lod, m)(other2, ("a", "k"))
+            RIGHT_OBSOLETE[0] = bool(other2._obsolete) or bool(getattr(other2._predecessor, "_obsolete", False))
+            return out
+        return getattr(lod, m)(other, "a")
     if m == "rename":
         return lod.rename(zz="z")
     if m == "select":
@@ -201,7 +212,7 @@ def impl(case):
         lod = lists[r]
         before = snap()
         obs_before = observe_lists()[0]
-        other = di.ListOfDicts([dict(d) for d in other_proto])
+        other = di.ListOfDicts([dict(d) for d in other_proto]).filter(lambda x: True)      # has a predecessor of its own
         other_before = [dict(x) for x in other]
         buf = io.StringIO()
         rec = {"obs_before": obs_before}
@@ -240,6 +251,9 @@ def impl(case):
             break
         rec["warnings"] = buf.getvalue().count("Warning: A successor has modified the shared dicts")
         rec["other_changed"] = [dict(x) for x in other] != other_before
+        # the right-hand argument of a join (and the list it was derived from) is only read: never obsolete afterwards
+        rec["other_obsolete"] = bool(other._obsolete) or bool(getattr(other._predecessor, "_obsolete", False)) or RIGHT_OBSOLETE[0]
+        RIGHT_OBSOLETE[0] = False
         if new is not None:
             known_before = set(tg.tags.values())
             lists.append(new)
@@ -330,6 +344,8 @@ def judge(ctx, case, obs, mouts):
             allowed = {target} if st["m"] == "top" else {t for t, c in iso.items() if c == iso[target]}
             if set(rec["changed"]) - allowed:
                 ctx.violation("oracle", "poke:leak", f"writing into item object {target} of list {r} changed dict objects {sorted(set(rec['changed']) - allowed)} beyond a deepcopy boundary / other items", sub, rec)
+        if rec.get("other_obsolete"):
+            ctx.violation("oracle", "obsolete:right-argument-marked", f"step {idx} ({st['m']}): the right-hand list of the call (only read) or its predecessor reports itself obsolete", sub, rec)
         if rec.get("other_changed"):
             ctx.violation("oracle", f"{st['m']}:right-modified", "a join modified its right-hand argument", sub, rec)
         # -- new list bookkeeping
